@@ -311,7 +311,7 @@ pub fn run(ctx: &Ctx) -> i32 {
         salt: 0x0801_0000,
         nshards: 64,
         enumerated: &enumerated,
-        random_cases: tier.pick(1_000_000, 40_000_000),
+        random_cases: tier.pick(6_000_000, 80_000_000),
         build_random: &|e| build(e, None, None),
         classify: &|c, j, t: &Tag, s| classify(c, j, t, s),
         all_quirks: false,
@@ -321,7 +321,7 @@ pub fn run(ctx: &Ctx) -> i32 {
     stats.exhaustive_subspaces.insert("@aa:8 operand values".into(), 256);
 
     // metamorphic phase: upper-byte invariance, emulator against emulator
-    let ntwin: u32 = tier.pick(200_000, 10_000_000);
+    let ntwin: u32 = tier.pick(1_000_000, 20_000_000);
     let nshards = 32usize;
     let tstats = par_shards(ctx, nshards, |shard| {
         let w = Worker::new(ctx);
